@@ -14,7 +14,11 @@ let hex_of_fr (x : fr) : string =
 let st = ref initialized
 let split s = List.filter (fun x -> x <> "") (String.split_on_char ' ' s)
 let fr = fr_of_hex
-let nat s = nat_of_int (int_of_string s)
+let results : int list ref = ref []   (* witnesses returned so far, oldest first *)
+let nat s =
+  if String.length s > 0 && s.[0] = '$' then
+    nat_of_int (List.nth !results (int_of_string (String.sub s 1 (String.length s - 1))))
+  else nat_of_int (int_of_string s)
 let opt_fr s = if s = "-" then None else Some (fr s)
 
 (* constraint with the six external selectors, optional PI, four wires *)
@@ -25,8 +29,9 @@ let mk_c m l r o f c pi a b cw d : constraint0 =
     c_has_pi = (pi <> "-");
     c_wa = nat a; c_wb = nat b; c_wc = nat cw; c_wd = nat d }
 
-let pr_w w = Printf.printf "R %d\n" (int_of_nat w)
-let pr_ws ws = Printf.printf "R %s\n" (String.concat " " (List.map (fun w -> string_of_int (int_of_nat w)) ws))
+let pr_w w = results := !results @ [int_of_nat w]; Printf.printf "R %d\n" (int_of_nat w)
+let pr_ws ws = results := !results @ List.map int_of_nat ws;
+  Printf.printf "R %s\n" (String.concat " " (List.map (fun w -> string_of_int (int_of_nat w)) ws))
 
 let snap () =
   let s = !st in
@@ -57,7 +62,7 @@ let step line =
   match split line with
   | [] -> ()
   | "#" :: _ -> ()
-  | ["prog"; name] -> Printf.printf "== %s\n" name; st := initialized
+  | ["prog"; name] -> Printf.printf "== %s\n" name; st := initialized; results := []
   | ["new"] -> st := initialized
   | ["w"; v] -> let (w, s) = append_witness (fr v) !st in st := s; pr_w w
   | ["gate"; m; l; r; o; f; c; pi; a; b; cw; d] ->
@@ -94,6 +99,15 @@ let step line =
           c_has_pi = (a.(12) = "1");
           c_wa = nat a.(13); c_wb = nat a.(14); c_wc = nat a.(15); c_wd = nat a.(16) } in
       st := append_custom_gate c !st
+  | ["clear"] -> st := { rows = []; wits = [] }
+  | ["LW"; v] -> let s = !st in st := { s with wits = s.wits @ [fr v] }
+  | "LG" :: rest when List.length rest = 16 ->
+      let a = Array.of_list rest in
+      let g : gate = { q_m = fr a.(0); q_l = fr a.(1); q_r = fr a.(2); q_o = fr a.(3);
+        q_f = fr a.(4); q_c = fr a.(5); q_arith = fr a.(6); q_range = fr a.(7);
+        q_logic = fr a.(8); q_fixed = fr a.(9); q_var = fr a.(10);
+        w_a = nat a.(11); w_b = nat a.(12); w_c = nat a.(13); w_d = nat a.(14) } in
+      let s = !st in st := { s with rows = s.rows @ [(g, opt_fr a.(15))] }
   | ["setw"; i; v] -> set_wit (int_of_string i) (fr v)
   | ["snap"] -> snap ()
   | ["sat"] -> sat ()
